@@ -119,6 +119,22 @@ def public_job(job):
             except Exception as e:  # noqa: BLE001
                 out = None
             events.append(dur_event(td, style, largest, smallest, auto, out))
+        # the loaded document goes on being used: a custom format created NOW (after displays were read) and applied to a cell that
+        # came from the file must be displayed like any other - at once, and after another save
+        later = [(i, fmt, dt) for (i, fmt, dt, custom) in ok_dates if not isinstance(custom, str)][: 12]
+        for n, (i, fmt, dt) in enumerate(later):
+            t2 = rt[i % len(rt)]
+            try:
+                cf = d2.add_custom_format(name="later %d %d" % (idx, n), type="datetime", format=fmt)
+                t2.set_cell_formatting(i, 0, "custom", format=cf)
+            except Exception:  # noqa: BLE001
+                continue
+            try:
+                out = t2.cell(i, 0).formatted_value
+                dt2 = t2.cell(i, 0).value
+            except Exception:  # noqa: BLE001
+                out, dt2 = None, dt
+            events.append(date_event(fmt, dt2, out, "custom-later"))
     finally:
         if os.path.exists(path):
             os.remove(path)
